@@ -37,7 +37,7 @@ type c20Params struct {
 func (c20) ID() string    { return "C20" }
 func (c20) Level() string { return "exploration" }
 func (c20) Rule() string {
-	return "each case: a connection accepted by pa.NewListener over a simulated listener, with TLCP-only / TLS-only / dual configuration, and one of three clients: the real tlcp client, the real crypto/tls client (TLS 1.2/1.3), or a raw writer that sends a record header with any major version byte 0..255 and stops after 0..12 bytes; transport segmentation whole / random / one byte per read (so the 5 peeked bytes arrive in every split); the server application's first operation is Read or Write, with read buffers from 1 byte (below the peeked header) upwards. Oracle: ProtectedConn() is *tlcp.Conn iff the major byte is 0x01 and *tls.Conn iff 0x03 (configuration error when that side is not configured), every other byte gives the unsupported-protocol error; handshake and echo through the adapter give the same negotiated state and bytes as against the stack directly; a client that disconnects early gives an error, never a hang or panic. distinct = distinct parameter vectors; non-trivial = the adapter reached its decision"
+	return "each case: a connection accepted by pa.NewListener over a simulated listener, with TLCP-only / TLS-only / dual configuration, and one of three clients: the real tlcp client, the real crypto/tls client (TLS 1.2/1.3), or a raw writer that sends a record header with any major version byte 0..255 and stops after 0..12 bytes; transport segmentation whole / random / one byte per read (so the 5 peeked bytes arrive in every split); the server application's first operation is Read or Write, with read buffers from 1 byte (below the peeked header) upwards. Oracle: ProtectedConn() is *tlcp.Conn iff the major byte is 0x01 and *tls.Conn iff 0x03 (configuration error when that side is not configured), every other byte gives the unsupported-protocol error; handshake and echo through the adapter give the same negotiated state and bytes as against the stack directly; a client that disconnects early gives an error, never a hang or panic - also for the other operation tried after the first one failed; a raw client that sent a whole header and then went away gives the error the stack gives when it is fed the same bytes directly. distinct = distinct parameter vectors; non-trivial = the adapter reached its decision"
 }
 func (c20) Components() (real, stub []string) {
 	return []string{"pa.listener, ProtocolSwitchServerConn, ProtocolDetectConn (instrumented)", "tlcp client+server (instrumented)", "crypto/tls client+server (real standard library code, one task per connection)"},
@@ -136,13 +136,25 @@ func (c20) Run(c *Case, src *vs.Src) *Result {
 	reply := payload(src, 1+p.Payload/2, 9)
 	var srvErr error
 	var srvGot []byte
-	var firstErr error
+	var firstErr, secondErr error
+	secondDone := true
+	// after a failed first operation the application tries the other one as well: it must fail too, not hang
+	second := func(first string) {
+		secondDone = false
+		if first == "write" {
+			_, secondErr = sconn.Read(make([]byte, 16))
+		} else {
+			_, secondErr = sconn.Write([]byte("x"))
+		}
+		secondDone = true
+	}
 	w.Go("server-app", func() {
 		defer sconn.Close()
 		if p.FirstOp == "write" {
 			// a server that speaks first (its first Write triggers detection and handshake)
 			if _, err := sconn.Write(reply); err != nil {
 				firstErr, srvErr = err, err
+				second("write")
 				return
 			}
 		}
@@ -154,10 +166,11 @@ func (c20) Run(c *Case, src *vs.Src) *Result {
 				break // the last bytes may arrive together with the end-of-stream indication
 			}
 			if err != nil {
+				srvErr = err
 				if firstErr == nil && len(srvGot) == 0 {
 					firstErr = err
+					second("read")
 				}
-				srvErr = err
 				return
 			}
 		}
@@ -210,11 +223,48 @@ func (c20) Run(c *Case, src *vs.Src) *Result {
 		cliGot, cliErr = readFull(conn, len(reply))
 		conn.Close()
 	})
+	// reference: the same bytes given to the stack directly (raw client, whole header of a configured protocol)
+	var refErr error
+	refRan := false
+	if p.Client == "raw" && p.SendLen >= 5 && ((p.Major == 1 && cfgT != nil) || (p.Major == 3 && cfgS != nil)) {
+		refRan = true
+		rp := simnet.NewPipe("client:2", "server:444")
+		rp.S.Seg, rp.C.Seg = p.Seg, p.Seg
+		w.Go("ref-client", func() {
+			hdr := []byte{22, byte(p.Major), byte(p.Minor), 0, 7, 1, 0, 0, 3, 1, 1, 0}
+			rp.C.Write(hdr[:p.SendLen])
+			rp.C.SetReadDeadline(vs.Now().Add(2 * time.Second))
+			rp.C.Read(make([]byte, 64))
+			rp.C.Close()
+		})
+		w.Go("ref-server", func() {
+			var direct net.Conn
+			if p.Major == 1 {
+				direct = tlcp.Server(rp.S, (&EPConf{Certs: []string{"server_sig", "server_enc"}}).BuildTLCP(env, "ref-s"))
+			} else {
+				_, refSrv := c20TLSConfigs(w)
+				refSrv.Rand = w.Rand("ref-tls-s")
+				direct = tls.Server(rp.S, refSrv)
+			}
+			if p.FirstOp == "write" {
+				_, refErr = direct.Write(reply)
+			} else {
+				_, refErr = direct.Read(make([]byte, p.Buf))
+			}
+			direct.Close()
+		})
+	}
 	reason, unf := w.Run()
 	w.Finish(r, sigp)
 	if reason != vs.Done {
-		r.Violate("hang", sigp+" not-ended "+reason, "run ended with %q, unfinished %v; first error %v", reason, unf, firstErr)
+		r.Violate("hang", sigp+" not-ended "+reason, "run ended with %q, unfinished %v; first error %v, second operation finished: %v", reason, unf, firstErr, secondDone)
 		return r
+	}
+	if firstErr != nil && secondErr == nil {
+		r.Violate("second-op", sigp+" second-operation-succeeded", "the first operation failed with %v, the other one then returned nil", firstErr)
+	}
+	if refRan && errStr(firstErr) != errStr(refErr) {
+		r.Violate("through", "C20 raw error-differs-from-direct-stack", "a client that sent %d bytes (major %d) and went away: through the adapter the first %s returned %q, the same bytes given to the stack directly give %q", p.SendLen, p.Major, p.FirstOp, errStr(firstErr), errStr(refErr))
 	}
 	// which stack serves the connection: normally asked of the adapter; a listener that hands out a stack's
 	// connection directly has made its choice without looking at the first record
